@@ -1,1 +1,4 @@
 . scripts/sched-variant.sh
+# a consumer that links only the package under test and the standard library (see harness/checks/standalone.go)
+rm -f build/standalone-powv1
+(cd harness && go build -o ../build/standalone-powv1 ./cmd/standalone-powv1) || echo "standalone consumer does not build"
